@@ -28,7 +28,8 @@ LEVEL_TEXT = ('For every shipped config wrapped directly, through the registered
               'interface and its converted observation (and state), reward and flag must equal what reset/step return; arrays must '
               'lie in the advertised spaces; representation names are switched mid-run and the advertised space must equal the '
               'conversion of the new representation\'s space; GymStateWrapper must return the state representation, pass the '
-              'observation through info and advertise the state space.')
+              'observation through info and advertise the state space.'
+              ' Also: shuffled / truncated action lists with stochastic observation, representation objects created and dropped in between, the state wrapper (also around gym.make results) with observation- and state-representation switches through its own handle.')
 LEVEL_NOTE = ('seed(), render() and the default gym.make checker wrappers are outside the statement and broken by the gym version of '
               'this sandbox (0.26 vs <=0.21); seeding goes through inner_env.set_seed.')
 SHARDS = {'quick': 4, 'thorough': 16}
